@@ -18,7 +18,8 @@ PROP = Property(
                   "restricted obligation: identifiers of equal length ==> distinct leaves (holds)",
                   ["From<StakeDistributionEntry> for MKTreeNode"]),
     ],
-    replays=[dict(crate="mithril-common", file=SD, module="replays/c11_stake.rs")],
+    replays=[dict(crate="mithril-common", file=SD, module="replays/c11_stake.rs"),
+             dict(crate="mithril-common", file="mithril-common/src/messages/cardano_transactions_proof.rs", module="replays/c11_proofs.rs")],
     assumptions=[
         "MKMapProof::verify / contains (ckb-merkle-mountain-range behind internal/mithril-merkle-tree) are callee contracts: 'valid proof' and 'leaf of the proof' are uninterpreted; that they imply membership under the root is the assumed contract of the external algorithm (see C09)",
         "hex / JSON decoding of the proof string (ProtocolMkProof::from_json_hex / from_bytes_hex) is a partial function of the string; item conversion From<message part> is field-by-field (contract)",
